@@ -35,4 +35,8 @@ CHECKS['C16'] = {'text': 'Real Rotation_Matrix(alpha,2), Rotation_Matrix(alpha,3
    'spherical vector = (r sin cos, r sin sin, r cos), with axis: norm r, polar angle theta from the axis, d/dphi = n^ x u (right-handed), for axes generic, parallel and antiparallel to z; every divisor non-zero and every sqrt argument non-negative for every non-zero axis.',
    'note': 'Exact reals; theta in [0,pi] enters as sin(theta) >= 0; accuracy near the poles (cancellation) is not decided. The division-by-zero obligation found the antiparallel-axis NaN, repaired in /repo by a fix: commit.',
    'technique': EA}
+CHECKS['C15'] = {'text': 'Real QR_Decomposition (Householder_Matrix, block-matrix constructor, Sub_Matrix, matrix products) executed on a symbolic non-singular matrix, every sign path: Q^T Q = I, Q R = M, R upper triangular as algebraic identities with square roots as witnesses, all divisors non-zero '
+   '(n<=2 quick, n=3 thorough under a cap). Reachability query: for a symmetric (diagonal) matrix and an exact eigenvalue the exit() inside the inverse iteration is reachable - reported as the known finding below and replayed through Eigensystem.',
+   'note': 'Convergence/termination of the QR iteration and of the inverse iteration, and therefore the spectrum clauses of Eigenvalues/Eigensystem, are NOT decided (data-dependent iteration counts; DESIGN.md 1.8). One known finding (not a small fix) is listed in known_findings.json.',
+   'technique': EA}
 NOT_APPLICABLE = {}
